@@ -11,6 +11,11 @@ ok, out = vlib.build_opm()
 print(out[-1500:])
 if not ok:
     sys.exit(1)
+# second tree: UBSan + bounds-checked libstdc++ containers (used by the C20 check)
+ok, out = vlib.build_opm(hard=True)
+print(out[-800:])
+if not ok:
+    sys.exit(1)
 PY
 python3 lib/regen_all.py
 (cd lean && lake build)
